@@ -89,7 +89,7 @@ pub fn run_input(input: &Value) -> Case {
         }
         "json_ser" => {
             let a = arr(&input["v"]);
-            let s = serde_json::to_string(&Version::from(a)).unwrap();
+            let s = serde_json::to_string(&Version::from(a)).unwrap_or_else(|e| format!("<serialisation failed: {}>", e));
             out["impl"] = json!(s);
             (format!("KJsonSer {} {}", g_ver(a), g_str(&s)), true)
         }
